@@ -2202,6 +2202,12 @@ func (h *Hub) processControlMsg(session Session, message *ClientMessage) {
 			h.mu.RLock()
 			sess, found := h.sessions[data.Sid]
 			if found && sess.PublicId() == msg.Recipient.SessionId {
+				if sess.Backend().Id() != session.Backend().Id() {
+					// Clients are only allowed to send to sessions from the same backend.
+					h.mu.RUnlock()
+					return
+				}
+
 				if sess, ok := sess.(*ClientSession); ok {
 					recipient = sess
 				}
